@@ -4,7 +4,14 @@ and Miller(use_symmetry) on /repo's working tree.
 
 Emits  cases  (input + observed output, compared with the Coq model inside
 Coq), fails (property oracle: an exact-arithmetic reference of the documented
-equality, independent of the implementation's float rounding) and strata."""
+equality, independent of the implementation's float rounding) and strata.
+
+The "audit" strata (AUDIT, near the end) reach the secondary entry points: subclasses
+that inherit unique (AxAngle, Rodrigues, Homochoric, SphericalRegion, FundamentalSector;
+Symmetry, OrientationRegion, Orientation / Misorientation with their symmetries), empty
+objects, integer / low-precision dtypes, Miller built from hkl / uvw / hkil / UVTW,
+positional flags, objects with a history, large and many-axis shapes, groups built
+through unique() and further point groups; oracle only (no Coq cases)."""
 import math
 from fractions import Fraction
 
@@ -13,9 +20,9 @@ from common import emit, payload, rand_unit_quat, rng, set_backend
 
 from diffpy.structure import Lattice, Structure
 from orix.crystal_map import Phase
-from orix.quaternion import Misorientation, Orientation, Quaternion, Rotation
+from orix.quaternion import Misorientation, Orientation, OrientationRegion, Quaternion, Rotation, Symmetry
 from orix.quaternion import symmetry as osym
-from orix.vector import Miller, Vector3d
+from orix.vector import AxAngle, FundamentalSector, Homochoric, Miller, Rodrigues, SphericalRegion, Vector3d
 
 P = payload()
 R = rng(P.get("seed", 0))
@@ -499,10 +506,575 @@ def run_miller_sym(name, ph, xyz, shape, tag, record=True):
              rep)
 
 
+# ============================================================ audit strata
+# Entry points, keyword paths, input classes and histories that the strata above never reach.  The
+# references are (a) a numpy brute force on WELL SEPARATED data (two entries are equal bit for bit / exact
+# negatives of each other, or differ by >= 1e-3, so that no rounding threshold is involved) and (b) the same
+# call made through the primary entry point (Vector3d / Rotation / Miller(xyz=...) on float64 data), which
+# the strata above judge with the exact-rational oracle.  The ORDER of the base-class idx is the known
+# finding unique:<cls>:idx:sorted-order; these strata compare idx as a set so that they do not restate it.
+GROUPS = {g.name: g for g in osym._groups}
+VEC_SUB = {"AxAngle": AxAngle, "Rodrigues": Rodrigues, "Homochoric": Homochoric,
+           "SphericalRegion": SphericalRegion, "FundamentalSector": FundamentalSector}
+ROT_CLS = {"Rotation": Rotation, "Symmetry": Symmetry, "OrientationRegion": OrientationRegion,
+           "Orientation": Orientation, "Misorientation": Misorientation}
+HEXL, TETL, ORTL = (3, 3, 5, 90, 90, 120), (3, 3, 5, 90, 90, 90), (3, 4, 5, 90, 90, 90)
+XPHASES = {"-43m": None, "23": None, "mm2": ORTL, "-42m": TETL, "4mm": TETL, "-4": TETL, "3m": HEXL, "32": HEXL,
+           "3": HEXL, "-3m": HEXL, "-6m2": HEXL, "6": HEXL, "622": HEXL}
+_XP = {}
+
+
+def phase_by_name(name):
+    d = dict(phases())
+    if name in d:
+        return d[name]
+    if name not in _XP:
+        lat = XPHASES[name]
+        _XP[name] = Phase(point_group=name) if lat is None else \
+            Phase(point_group=name, structure=Structure(lattice=Lattice(*lat)))
+    return _XP[name]
+
+
+def sep_rows(dim, n, npool, integer=False):
+    """well separated rows: pool entries are integers or multiples of 1e-3; exact duplicates, exact negatives,
+    exact zero rows"""
+    pool = []
+    for _ in range(npool):
+        if integer:
+            pool.append([float(R.randint(-3, 3)) for _ in range(dim)])
+        else:
+            pool.append([round(R.gauss(0, 1), 3) for _ in range(dim)])
+    rows = []
+    for _ in range(n):
+        k = R.random()
+        if k < 0.10:
+            rows.append([0.0] * dim)
+        elif k < 0.25:
+            rows.append([-x for x in R.choice(pool)])
+        else:
+            rows.append(list(R.choice(pool)))
+    return rows
+
+
+def sep_quats(n, npool):
+    """well separated unit quaternions with exact duplicates, exact antipodes and flag flips"""
+    pool = [rand_unit_quat(R) for _ in range(npool)]
+    qs, imps = [], []
+    for _ in range(n):
+        k = R.random()
+        if k < 0.25 and qs:
+            j = R.randrange(len(qs)); qs.append([-x for x in qs[j]]); imps.append(imps[j])
+        elif k < 0.40 and qs:
+            j = R.randrange(len(qs)); qs.append(list(qs[j])); imps.append(not imps[j])
+        else:
+            qs.append(list(R.choice(pool))); imps.append(R.random() < 0.35)
+    return qs, imps
+
+
+def brute_vec(a):
+    """(positions of the non-zero rows, positions of the first appearances, inverse over the non-zero rows)"""
+    a = np.asarray(a, dtype=float)
+    a = a.reshape(len(a), -1)
+    nz = [j for j in range(len(a)) if not np.all(np.abs(a[j]) <= 1e-8)]
+    first, inv = [], []
+    for j in nz:
+        hit = np.flatnonzero(np.max(np.abs(a[first] - a[j]), axis=1) < 1e-9) if first else []
+        if len(hit):
+            inv.append(int(hit[0]))
+        else:
+            first.append(j); inv.append(len(first) - 1)
+    return nz, first, inv
+
+
+def brute_rot(q, imp, antipodal):
+    q = np.asarray(q, dtype=float).reshape(-1, 4)
+    imp = np.asarray(imp, dtype=bool).reshape(-1)
+    first, inv = [], []
+    for j in range(len(q)):
+        hit = []
+        if first:
+            d = np.max(np.abs(q[first] - q[j]), axis=1)
+            if antipodal:
+                d = np.minimum(d, np.max(np.abs(q[first] + q[j]), axis=1))
+            hit = np.flatnonzero((d < 1e-9) & (imp[first] == imp[j]))
+        if len(hit):
+            inv.append(int(hit[0]))
+        else:
+            first.append(j); inv.append(len(first) - 1)
+    return first, inv
+
+
+def judge_vec(pre, what, flat, out, idx, inv, rep):
+    """brute-force verdict on a base-class result"""
+    a = np.asarray(flat, dtype=float)
+    a = a.reshape(len(a), -1)
+    out = np.asarray(out, dtype=float).reshape(-1, a.shape[1])
+    nz, first, binv = brute_vec(a)
+    if len(out) != len(first) or (len(first) and np.max(np.abs(out - a[first])) > 5.01e-11):
+        fail(f"{pre}:values", f"{what}: the returned entries are not the distinct non-zero entries of the flattened "
+             "input in order of first appearance (brute force)", rep)
+        return False
+    ok = True
+    if idx is not None and sorted(int(i) for i in idx) != first:
+        fail(f"{pre}:idx", f"{what}: np.sort(idx) is not the list of positions of the first appearances in the "
+             "flattened input (brute force)", rep)
+        ok = False
+    if inv is not None and [int(i) for i in inv] != binv:
+        fail(f"{pre}:inv", f"{what}: out[inv[j]] is not the j-th non-zero flattened entry (brute force)", rep)
+        ok = False
+    return ok
+
+
+def judge_rot(pre, what, fq, fi, u, idx, inv, antipodal, rep):
+    """brute-force verdict on a Rotation.unique result"""
+    fq = np.asarray(fq, dtype=float).reshape(-1, 4)
+    fi = np.asarray(fi, dtype=bool).reshape(-1)
+    first, binv = brute_rot(fq, fi, antipodal)
+    oq, oi = u.data.reshape(-1, 4), u.improper.reshape(-1)
+    if len(oq) != len(first) or (len(first) and (np.max(np.abs(oq - fq[first])) > 1e-14
+                                                  or not np.array_equal(oi, fi[first]))):
+        fail(f"{pre}:values", f"{what}: the returned rotations (quaternion and improper flag) are not the distinct "
+             "rotations of the flattened input in order of first appearance (brute force)", rep)
+        return False
+    ok = True
+    if idx is not None and [int(i) for i in idx] != first:
+        fail(f"{pre}:idx", f"{what}: idx is not the list of positions of the first appearances (brute force)", rep)
+        ok = False
+    if inv is not None and [int(i) for i in inv] != binv:
+        fail(f"{pre}:inv", f"{what}: out[inv[j]] is not the j-th flattened rotation (brute force)", rep)
+        ok = False
+    return ok
+
+
+def build_rot(rep, q=None, imp=None):
+    q = np.array(rep["q"], dtype=float) if q is None else q
+    imp = np.array(rep["improper"], dtype=bool) if imp is None else imp
+    cls = rep["cls"]
+    syms = [GROUPS[s] for s in rep.get("symmetry", [])]
+    if cls == "Orientation":
+        r = Orientation(q, symmetry=syms[0] if syms else osym.Oh)
+    elif cls == "Misorientation":
+        r = Misorientation(q, symmetry=tuple(syms) if syms else (osym.D6, osym.Oh))
+    else:
+        r = ROT_CLS[cls](q)
+    r.improper = imp
+    return r
+
+
+def sym_kept(u, r):
+    """symmetry of an Orientation / pair of symmetries of a Misorientation carried over to the result"""
+    if not isinstance(r, Misorientation):
+        return True
+    a, b = u.symmetry, r.symmetry
+    a, b = (a, b) if isinstance(a, tuple) else ((a,), (b,))
+    return len(a) == len(b) and all(x.name == y.name and np.array_equal(x.data, y.data)
+                                    and np.array_equal(x.improper, y.improper) for x, y in zip(a, b))
+
+
+def exc(e):
+    return f"{type(e).__name__}: {e}"[:200]
+
+
+# ---- 1. subclasses of Vector3d that inherit Object3d.unique
+def audit_vec_subclass(rep):
+    name = rep["cls"]
+    C = VEC_SUB[name]
+    arr = np.array(rep["data"], dtype=float)
+    pre = f"unique:{name}:subclass"
+    try:
+        obj, prim = C(arr), Vector3d(arr)
+        u, idx, inv = obj.unique(return_index=True, return_inverse=True)
+        u0 = obj.unique()
+        p, pidx, pinv = prim.unique(return_index=True, return_inverse=True)
+    except Exception as e:  # noqa
+        fail(f"{pre}:raises", f"{name}.unique raises {exc(e)}", rep)
+        return
+    if type(u) is not C or type(u0) is not C or u.ndim != 1:
+        fail(f"{pre}:class", f"{name}.unique does not return a flat {name}", rep)
+    if not (np.array_equal(u.data, p.data) and np.array_equal(u0.data, p.data) and np.array_equal(idx, pidx)
+            and np.array_equal(inv, pinv)):
+        fail(f"{pre}:differs-from-Vector3d", f"{name}.unique and Vector3d.unique differ on the same data", rep)
+    judge_vec(pre, f"{name}.unique", obj.flatten().data, u.data, idx, inv, rep)
+
+
+# ---- 2. subclasses of Rotation (Symmetry, OrientationRegion; Orientation / Misorientation with their symmetries)
+def audit_rot_subclass(rep):
+    name, ap = rep["cls"], rep["antipodal"]
+    pre = f"unique:{name}:subclass"
+    try:
+        r = build_rot(rep)
+        prim = build_rot(dict(rep, cls="Rotation"))
+        u, idx, inv = r.unique(return_index=True, return_inverse=True, antipodal=ap)
+        u0 = r.unique(antipodal=ap)
+        p, pidx, pinv = prim.unique(return_index=True, return_inverse=True, antipodal=ap)
+    except Exception as e:  # noqa
+        fail(f"{pre}:raises", f"{name}.unique raises {exc(e)}", rep)
+        return
+    if type(u) is not type(r) or type(u0) is not type(r) or u.ndim != 1:
+        fail(f"{pre}:class", f"{name}.unique does not return a flat {name}", rep)
+    elif not (sym_kept(u, r) and sym_kept(u0, r)):
+        fail(f"{pre}:symmetry", f"{name}.unique does not carry the symmetry over to the returned object", rep)
+    if not (np.array_equal(u.data, p.data) and np.array_equal(u.improper, p.improper)
+            and np.array_equal(u0.data, p.data) and np.array_equal(u0.improper, p.improper)
+            and np.array_equal(idx, pidx) and np.array_equal(inv, pinv)):
+        fail(f"{pre}:differs-from-Rotation", f"{name}.unique and Rotation.unique differ on the same data", rep)
+    f = r.flatten()
+    judge_rot(pre, f"{name}.unique(antipodal={ap})", f.data, f.improper, u, idx, inv, ap, rep)
+
+
+# ---- 3. empty objects (size 0, shapes (0,) and (2, 0)), every flag combination
+def audit_empty(rep):
+    cls, shape = rep["cls"], tuple(rep["shape"])
+    ri, rv = bool(rep.get("return_index")), bool(rep.get("return_inverse"))
+    pre = f"unique:{cls}:empty"
+    kw = {}
+    if ri:
+        kw["return_index"] = True
+    if rv:
+        kw["return_inverse"] = True
+    try:
+        if cls in ("Vector3d", "Quaternion"):
+            C = Vector3d if cls == "Vector3d" else Quaternion
+            obj = C(np.zeros(shape + (C.dim,)))
+        elif cls == "Miller":
+            obj = Miller(xyz=np.zeros(shape + (3,)), phase=phase_by_name(rep["point_group"]))
+            kw["use_symmetry"] = bool(rep["use_symmetry"])
+        else:
+            obj = build_rot(rep, q=np.zeros(shape + (4,)), imp=np.zeros(shape, dtype=bool))
+            kw["antipodal"] = bool(rep["antipodal"])
+        res = obj.unique(**kw)
+    except Exception as e:  # noqa
+        fail(f"{pre}:raises", f"{cls}.unique on an empty object of shape {shape} ({kw}) raises {exc(e)}", rep)
+        return
+    ar = len(res) if isinstance(res, tuple) else 1
+    if ar != 1 + int(ri) + int(rv):
+        fail(f"{pre}:arity", f"{cls}.unique on an empty object of shape {shape} ({kw}) returns {ar} value(s)", rep)
+        return
+    res = res if isinstance(res, tuple) else (res,)
+    if type(res[0]) is not type(obj) or res[0].size != 0 or res[0].ndim != 1 or \
+            any(np.asarray(a).shape != (0,) or np.asarray(a).dtype.kind != "i" for a in res[1:]) or \
+            (cls == "Miller" and res[0].phase is not obj.phase):
+        # (the symmetry of an empty Orientation / Misorientation is NOT demanded: Rotation.unique returns
+        #  cls.empty(), which has the default symmetry; outside the statement of C17)
+        fail(f"{pre}:values", f"{cls}.unique on an empty object of shape {shape} ({kw}) does not return an empty "
+             "flat object of the same class and empty integer index arrays", rep)
+
+
+# ---- 4. data of another dtype (integer, low-precision float) against the same numbers as float64
+def audit_dtype(rep):
+    cls, dt = rep["cls"], rep["dtype"]
+    arr = np.array(rep["data"]).astype(dt)
+    pre = f"unique:{cls}:dtype={dt}"
+    kw = {"antipodal": bool(rep["antipodal"])} if cls == "Rotation" else {}
+    C = {"Vector3d": Vector3d, "Quaternion": Quaternion, "Rotation": Rotation}[cls]
+    try:
+        obj, prim = C(arr), C(arr.astype(np.float64))
+        if cls == "Rotation":
+            imp = np.array(rep["improper"], dtype=bool)
+            obj.improper = imp
+            prim.improper = imp
+        u, idx, inv = obj.unique(return_index=True, return_inverse=True, **kw)
+        u0 = obj.unique(**kw)
+        p, pidx, pinv = prim.unique(return_index=True, return_inverse=True, **kw)
+    except Exception as e:  # noqa
+        fail(f"{pre}:raises", f"{cls}.unique on {dt} data raises {exc(e)}", rep)
+        return
+    if not (np.array_equal(u.data, p.data) and np.array_equal(u0.data, p.data) and np.array_equal(idx, pidx)
+            and np.array_equal(inv, pinv) and type(u) is C and u.ndim == 1
+            and (cls != "Rotation" or np.array_equal(u.improper, p.improper))):
+        fail(f"{pre}:differs-from-float64", f"{cls}.unique on {dt} data differs from the result for the same numbers "
+             "given as float64", rep)
+    f = obj.flatten()
+    if cls == "Rotation":
+        judge_rot(pre, f"{cls}.unique on {dt} data", f.data, f.improper, u, idx, inv, kw["antipodal"], rep)
+    else:
+        judge_vec(pre, f"{cls}.unique on {dt} data", f.data, u.data, idx, inv, rep)
+
+
+# ---- 5. Miller built from indices (hkl / uvw / hkil / UVTW keyword), all four (use_symmetry, return_index)
+def audit_miller_format(rep):
+    name, fmt = rep["point_group"], rep["format"]
+    us, ri = bool(rep["use_symmetry"]), bool(rep["return_index"])
+    shape = tuple(rep["shape"])
+    pre = f"unique:Miller:format={fmt}:sym={us}"
+    ph = phase_by_name(name)
+    coords = np.array(rep["coords"]).astype(rep.get("dtype", "float64"))
+    coords = coords.reshape(shape + (coords.shape[-1],))
+    try:
+        m = Miller(**{fmt: coords}, phase=ph)
+        xyz = np.array(m.data, dtype=float)
+        prim = Miller(xyz=xyz.copy(), phase=ph)
+        res = m.unique(use_symmetry=us, return_index=ri)
+        pu, pidx = prim.unique(use_symmetry=us, return_index=True)
+    except Exception as e:  # noqa
+        fail(f"{pre}:raises", f"Miller({fmt}=...).unique(use_symmetry={us}, return_index={ri}) raises {exc(e)}", rep)
+        return
+    if isinstance(res, tuple) != ri or (ri and len(res) != 2):
+        fail(f"{pre}:arity", f"Miller.unique(use_symmetry={us}, return_index={ri}) returns the wrong number of values",
+             rep)
+        return
+    u = res[0] if ri else res
+    if type(u) is not Miller or u.ndim != 1 or u.phase is not m.phase or u.coordinate_format != fmt:
+        fail(f"{pre}:format-or-phase", f"Miller({fmt}=...).unique(use_symmetry={us}) does not return a flat Miller "
+             f"with the phase and the coordinate format '{fmt}' of the input", rep)
+    if not np.array_equal(u.data, pu.data) or (ri and not np.array_equal(res[1], pidx)):
+        fail(f"{pre}:differs-from-xyz", f"Miller({fmt}=...).unique(use_symmetry={us}, return_index={ri}) differs from "
+             "the result for the same vectors given as xyz with return_index=True", rep)
+    elif ri and u.coordinate_format == fmt:
+        fl = m.flatten()
+        # without symmetry the k-th returned vector sits at np.sort(idx)[k] (order of idx: known finding
+        # unique:Miller:idx:sorted-order), with symmetry at idx[k]
+        ix = np.asarray(res[1], dtype=int)
+        want = np.asarray(getattr(fl, fmt))[ix if us else np.sort(ix)]
+        if u.size != len(want) or not np.allclose(np.asarray(getattr(u, fmt)), want, atol=1e-8):
+            fail(f"{pre}:indices", f"the {fmt} of the returned vectors are not the {fmt} of the flattened input at idx",
+                 rep)
+    # the xyz path itself, judged by the oracles above
+    if us:
+        run_miller_sym(name, ph, xyz.reshape(-1, 3).tolist(), shape, f"audit/miller-format/{fmt}", record=False)
+    else:
+        run_base("Miller", xyz, shape, f"audit/miller-format/{fmt}", miller_phase=ph, record=False)
+
+
+# ---- 6. flags passed by position
+def same_result(a, b):
+    a = a if isinstance(a, tuple) else (a,)
+    b = b if isinstance(b, tuple) else (b,)
+    if len(a) != len(b) or type(a[0]) is not type(b[0]) or not np.array_equal(a[0].data, b[0].data):
+        return False
+    if isinstance(a[0], Rotation) and not np.array_equal(a[0].improper, b[0].improper):
+        return False
+    return all(np.array_equal(x, y) for x, y in zip(a[1:], b[1:]))
+
+
+def audit_positional(rep):
+    cls = rep["cls"]
+    pre = f"unique:{cls}:positional"
+    try:
+        if cls == "Miller":
+            o = Miller(xyz=np.array(rep["data"], dtype=float), phase=phase_by_name(rep["point_group"]))
+            pairs = [((True,), {"use_symmetry": True}), ((False, True), {"return_index": True}),
+                     ((True, True), {"use_symmetry": True, "return_index": True}), ((False, False), {})]
+        elif cls in ("Vector3d", "Quaternion"):
+            o = (Vector3d if cls == "Vector3d" else Quaternion)(np.array(rep["data"], dtype=float))
+            pairs = [((True,), {"return_index": True}), ((False, True), {"return_inverse": True}),
+                     ((True, True), {"return_index": True, "return_inverse": True}), ((False, False), {})]
+        else:
+            o = build_rot(rep)
+            pairs = [((True,), {"return_index": True}), ((False, True), {"return_inverse": True}),
+                     ((True, True, False), {"return_index": True, "return_inverse": True, "antipodal": False}),
+                     ((False, False, False), {"antipodal": False}), ((False, True, True), {"return_inverse": True}),
+                     ((True, False, True), {"return_index": True, "antipodal": True})]
+        for args, kw in pairs:
+            if not same_result(o.unique(*args), o.unique(**kw)):
+                fail(pre, f"{cls}.unique{args} differs from {cls}.unique(**{kw})", rep)
+                return
+    except Exception as e:  # noqa
+        fail(f"{pre}:raises", f"{cls}.unique with positional flags raises {exc(e)}", rep)
+
+
+# ---- 7. objects with a history (views, transposes, products, mutation after a first call, unique of unique)
+VEC_OPS = ["slice-step", "slice-col", "transpose", "reshape", "neg", "squeeze", "setitem-after-unique",
+           "unique-twice", "stack"]
+ROT_OPS = ["neg", "getitem-rev", "slice-col", "transpose", "mul-proper", "mul-improper", "rmul-improper", "invert",
+           "outer-flags", "improper-after-unique", "setitem-after-unique", "unique-twice", "minus-one"]
+
+
+def audit_history(rep):
+    cls, op = rep["cls"], rep["op"]
+    pre = f"unique:{cls}:history:{op}"
+    try:
+        if cls in ("Vector3d", "Quaternion", "Miller"):
+            arr = np.array(rep["data"], dtype=float)  # shape (a, b, dim)
+            ph = phase_by_name(rep["point_group"]) if cls == "Miller" else None
+
+            def mk(x):
+                x = np.array(x, dtype=float)
+                return Miller(xyz=x, phase=ph) if cls == "Miller" else \
+                    (Vector3d if cls == "Vector3d" else Quaternion)(x)
+            o = mk(arr)
+            if op == "slice-step":
+                o = o[::2]
+            elif op == "slice-col":
+                o = o[:, 0]
+            elif op == "transpose":
+                o = o.transpose()
+            elif op == "reshape":
+                o = o.reshape(arr.shape[1], arr.shape[0])
+            elif op == "neg":
+                o = -o
+            elif op == "squeeze":
+                o = mk(arr[:, :1]).squeeze()
+            elif op == "setitem-after-unique":
+                o.unique(return_index=True)
+                o[0] = o[-1]
+            elif op == "unique-twice":
+                o = o.unique()
+            elif op == "stack":
+                o = type(o).stack([o[0], o[-1], o[0]]) if cls != "Miller" else o[::-1]
+            flat = np.array(o.flatten().data, dtype=float)
+            fresh = mk(flat.copy())
+            if cls == "Miller":
+                u, idx = o.unique(return_index=True)
+                inv = None
+                fu, fidx = fresh.unique(return_index=True)
+                finv = None
+            else:
+                u, idx, inv = o.unique(return_index=True, return_inverse=True)
+                fu, fidx, finv = fresh.unique(return_index=True, return_inverse=True)
+            if not (type(u) is type(fu) and np.array_equal(u.data, fu.data) and np.array_equal(idx, fidx)
+                    and (inv is None or np.array_equal(inv, finv))):
+                fail(f"{pre}:differs-from-fresh", f"{cls}.unique of an object obtained by '{op}' differs from unique "
+                     "of a new object holding the same flattened data", rep)
+            ok = judge_vec(pre, f"{cls}.unique after '{op}'", flat, u.data, idx, inv, rep)
+            if ok and op == "unique-twice" and not (u.size == o.size and np.array_equal(u.data, o.data)):
+                fail(f"{pre}:not-idempotent", f"{cls}.unique of a unique result changes it", rep)
+        else:
+            r = build_rot(rep)  # shape (a, b)
+            one = Rotation([[0.5, 0.5, -0.5, 0.5]])
+            if op == "neg":
+                o = -r
+            elif op == "getitem-rev":
+                o = r[::-1]
+            elif op == "slice-col":
+                o = r[:, 0]
+            elif op == "transpose":
+                o = r.transpose()
+            elif op == "mul-proper":
+                o = r * one
+            elif op == "mul-improper":
+                one.improper = [True]
+                o = r * one
+            elif op == "rmul-improper":
+                one.improper = [True]
+                o = one * r
+            elif op == "invert":
+                o = ~r
+            elif op == "outer-flags":
+                two = Rotation([[1, 0, 0, 0], [1, 0, 0, 0]])
+                two.improper = [False, True]
+                o = r.outer(two)
+            elif op == "improper-after-unique":
+                o = r
+                o.unique(return_index=True, return_inverse=True, antipodal=rep["antipodal"])
+                imp2 = ~o.improper
+                imp2[0, :] = False
+                o.improper = imp2
+            elif op == "setitem-after-unique":
+                o = r
+                o.unique(return_index=True, return_inverse=True, antipodal=rep["antipodal"])
+                o[0] = o[-1]
+            elif op == "unique-twice":
+                o = r.unique(antipodal=rep["antipodal"])
+            elif op == "minus-one":
+                o = r * -1
+            ap = bool(rep["antipodal"])
+            f = o.flatten()
+            fq, fi = np.array(f.data, dtype=float), np.array(f.improper, dtype=bool)
+            fresh = Rotation(fq.copy())
+            fresh.improper = fi
+            u, idx, inv = o.unique(return_index=True, return_inverse=True, antipodal=ap)
+            fu, fidx, finv = fresh.unique(return_index=True, return_inverse=True, antipodal=ap)
+            if not (type(u) is type(o) and u.size == fu.size and np.max(np.abs(u.data - fu.data), initial=0) <= 1e-14
+                    and np.array_equal(u.improper, fu.improper)
+                    and np.array_equal(idx, fidx) and np.array_equal(inv, finv)):
+                fail(f"{pre}:differs-from-fresh", f"{cls}.unique of an object obtained by '{op}' differs from unique "
+                     "of a new object holding the same flattened quaternions and flags", rep)
+            elif op not in ("rmul-improper", "mul-proper", "mul-improper", "outer-flags", "minus-one") and \
+                    not sym_kept(u, o):
+                fail(f"{pre}:symmetry", f"{cls}.unique after '{op}' loses the symmetry", rep)
+            ok = judge_rot(pre, f"{cls}.unique(antipodal={ap}) after '{op}'", fq, fi, u, idx, inv, ap, rep)
+            if ok and op == "unique-twice" and not (np.array_equal(idx, np.arange(o.size))
+                                                    and np.array_equal(inv, np.arange(o.size))):
+                fail(f"{pre}:not-idempotent", f"{cls}.unique of a unique result changes it", rep)
+    except Exception as e:  # noqa
+        fail(f"{pre}:raises", f"{cls}.unique after '{op}' raises {exc(e)}", rep)
+
+
+# ---- 8. large collections and shapes with >= 4 axes / size-1 axes in any position, brute force
+def audit_brute(rep):
+    cls, shape = rep["cls"], tuple(rep["shape"])
+    pre = f"unique:{cls}:brute"
+    try:
+        if cls in ("Vector3d", "Quaternion", "Miller"):
+            arr = np.array(rep["data"], dtype=float).reshape(shape + (-1,))
+            if cls == "Miller":
+                o = Miller(xyz=arr, phase=phase_by_name(rep["point_group"]))
+                u, idx = o.unique(return_index=True)
+                inv = None
+            else:
+                o = (Vector3d if cls == "Vector3d" else Quaternion)(arr)
+                u, idx, inv = o.unique(return_index=True, return_inverse=True)
+            u0 = o.unique()
+            if type(u) is not type(o) or u.ndim != 1 or not np.array_equal(u0.data, u.data):
+                fail(f"{pre}:object", f"{cls}.unique on shape {shape} is not flat / changes class / depends on flags",
+                     rep)
+            judge_vec(pre, f"{cls}.unique on shape {shape}", o.flatten().data, u.data, idx, inv, rep)
+        else:
+            ap = bool(rep["antipodal"])
+            r = build_rot(rep, q=np.array(rep["q"], dtype=float).reshape(shape + (4,)),
+                          imp=np.array(rep["improper"], dtype=bool).reshape(shape))
+            u, idx, inv = r.unique(return_index=True, return_inverse=True, antipodal=ap)
+            u0 = r.unique(antipodal=ap)
+            if type(u) is not type(r) or u.ndim != 1 or not np.array_equal(u0.data, u.data) or \
+                    not np.array_equal(u0.improper, u.improper) or not sym_kept(u, r):
+                fail(f"{pre}:object", f"{cls}.unique on shape {shape} is not flat / changes class or symmetry / "
+                     "depends on flags", rep)
+            f = r.flatten()
+            judge_rot(pre, f"{cls}.unique(antipodal={ap}) on shape {shape}", f.data, f.improper, u, idx, inv, ap, rep)
+    except Exception as e:  # noqa
+        fail(f"{pre}:raises", f"{cls}.unique on shape {shape} raises {exc(e)}", rep)
+
+
+# ---- 9. symmetry groups built through unique(): products of two named groups, from_generators
+def audit_group(rep):
+    kind = rep["kind"]
+    pre = f"unique:Symmetry:{kind}"
+    try:
+        if kind == "product":
+            g1, g2 = GROUPS[rep["g1"]], GROUPS[rep["g2"]]
+            prod = g1.outer(g2)
+            f = prod.flatten()
+            for ap in (True, False):
+                u, idx, inv = prod.unique(return_index=True, return_inverse=True, antipodal=ap)
+                if type(u) is not Symmetry:
+                    fail(f"{pre}:class", "unique of a product of two point groups is not a Symmetry", rep)
+                if not judge_rot(pre, f"({g1.name}).outer({g2.name}).unique(antipodal={ap})", f.data, f.improper, u,
+                                 idx, inv, ap, rep):
+                    return
+            u = prod.unique()
+            if g1.name == g2.name and u.size != g1.size:
+                fail(f"{pre}:closure", f"({g1.name}).outer({g1.name}).unique() has {u.size} elements, the group has "
+                     f"{g1.size}", rep)
+        else:
+            g = GROUPS[rep["g1"]]
+            # (generators whose product with the identity has a single element make from_generators return
+            #  before closing the set -- its loop starts from size 1 -- which is not unique()'s doing: groups
+            #  of order <= 2 are passed whole)
+            gens = [g] if kind == "from_generators:whole" or g.size <= 2 else [g[1:], g[:1]]
+            s = Symmetry.from_generators(*gens)
+            first, inv = brute_rot(np.concatenate([g.data, s.data]), np.concatenate([g.improper, s.improper]), True)
+            # every element of s is one of g (inverse label < |g|), all of g are reached, no duplicates in s
+            lab = inv[g.size:]
+            if type(s) is not Symmetry or s.size != g.size or len(first) != g.size or len(set(lab)) != len(lab):
+                fail(pre, f"Symmetry.from_generators on the elements of {g.name} returns {s.size} elements "
+                     f"({len(set(lab))} distinct, {len(first) - g.size} outside the group); the group has {g.size}",
+                     rep)
+    except Exception as e:  # noqa
+        fail(f"{pre}:raises", f"{kind} raises {exc(e)}", rep)
+
+
+AUDIT = {"vec-subclass": audit_vec_subclass, "rot-subclass": audit_rot_subclass, "empty": audit_empty,
+         "dtype": audit_dtype, "miller-format": audit_miller_format, "positional": audit_positional,
+         "history": audit_history, "brute": audit_brute, "group": audit_group}
+
+
 # =================================================================== run
 def replay_one(rep):
     """re-run one stored failing input (the `replay` object of a failure)"""
-    if rep.get("empty"):
+    if rep.get("stratum") in AUDIT:
+        AUDIT[rep["stratum"]](rep)
+    elif rep.get("empty"):
         cls = {"Rotation": Rotation, "Orientation": Orientation, "Misorientation": Misorientation}[rep["cls"]]
         res = cls.empty().unique(return_index=rep["return_index"], return_inverse=rep["return_inverse"])
         ar = len(res) if isinstance(res, tuple) else 1
@@ -512,7 +1084,7 @@ def replay_one(rep):
                 any(np.asarray(a).shape != (0,) or np.asarray(a).dtype.kind != "i" for a in (res[1:] if ar > 1 else ())):
             fail(f"unique:{rep['cls']}:empty:values", "does not return an empty object and empty index arrays", rep)
     elif rep.get("use_symmetry"):
-        ph = dict(phases())[rep["point_group"]]
+        ph = phase_by_name(rep["point_group"])
         run_miller_sym(rep["point_group"], ph, rep["xyz"], tuple(rep["shape"]), "replay")
     elif "q" in rep:
         q = np.array(rep["q"], float)
@@ -649,5 +1221,195 @@ else:
     xa = np.array(xs)
     cases.append({"k": "round", "x": xs, "r10": np.round(xa, 10).tolist(), "r12": np.round(xa, 12).tolist()})
     st("np.round")
+
+
+    # ---- audit strata: secondary classes, empty objects, dtypes, Miller index formats, positional flags,
+    #      histories, large / many-axis shapes, groups built through unique(), further point groups.
+    #      Parameter combinations are CYCLED (k-th case takes the k-th combination), only the data is random.
+    KR = 1 if N < 1000 else 3
+    set_backend(True)
+
+    def go(stratum, rep, label):
+        rep = dict(rep, stratum=stratum)
+        st(f"audit/{stratum}/{label}")
+        nf = len(fails)
+        AUDIT[stratum](rep)
+        return len(fails) == nf
+
+    A_SHAPES = [(6,), (2, 3), (3, 1, 2), (1, 6), (2, 1, 3, 1)]
+    # 1. Vector3d subclasses
+    for k in range(10 * KR):
+        name = list(VEC_SUB)[k % len(VEC_SUB)]
+        shape = A_SHAPES[k % len(A_SHAPES)]
+        n = int(np.prod(shape))
+        arr = np.array(sep_rows(3, n, 1 + k % 3, integer=k % 2 == 0), dtype=float).reshape(shape + (3,))
+        go("vec-subclass", {"cls": name, "data": arr.tolist()}, name)
+    # 2. Rotation subclasses; the two symmetries of a Misorientation are drawn from different classes, both orders
+    SYM1 = ["432", "-3m", "1", "mm2", "6/mmm"]
+    SYM2 = [("622", "m-3m"), ("m-3m", "622"), ("1", "-43m"), ("-4", "222"), ("3m", "3m"), ("-1", "1")]
+    k = 0
+    for name in ("Symmetry", "OrientationRegion", "Orientation", "Misorientation"):
+        for ap in (True, False):
+            for j in range(2 * KR):
+                set_backend(k % 3 != 0)
+                shape = A_SHAPES[k % len(A_SHAPES)]
+                n = int(np.prod(shape))
+                qs, imps = sep_quats(n, 1 + k % 3)
+                rep = {"cls": name, "antipodal": ap, "q": np.array(qs).reshape(shape + (4,)).tolist(),
+                       "improper": np.array(imps).reshape(shape).tolist()}
+                if name == "Orientation":
+                    rep["symmetry"] = [SYM1[k % len(SYM1)]]
+                elif name == "Misorientation":
+                    rep["symmetry"] = list(SYM2[k % len(SYM2)])
+                go("rot-subclass", rep, f"{name}/antipodal={ap}")
+                k += 1
+    set_backend(True)
+    # 3. empty objects
+    for shape in ([0], [2, 0]):
+        for ri in (False, True):
+            for rv in (False, True):
+                for cls in ("Vector3d", "Quaternion"):
+                    go("empty", {"cls": cls, "shape": shape, "return_index": ri, "return_inverse": rv}, cls)
+                for cls in ("Rotation", "Orientation", "Misorientation", "Symmetry"):
+                    for ap in (True, False):
+                        go("empty", {"cls": cls, "shape": shape, "return_index": ri, "return_inverse": rv,
+                                     "antipodal": ap}, f"{cls}/antipodal={ap}")
+            for us in (False, True):
+                go("empty", {"cls": "Miller", "shape": shape, "return_index": ri, "return_inverse": False,
+                             "use_symmetry": us, "point_group": ["m-3m", "6/mmm", "-43m"][(ri + 2 * us) % 3]},
+                   f"Miller/sym={us}")
+    # 4. dtypes
+    k = 0
+    for dt in ("int64", "int32", "int8", "float32", "float16"):
+        for cls in ("Vector3d", "Quaternion", "Rotation"):
+            for j in range(KR):
+                shape = A_SHAPES[k % len(A_SHAPES)]
+                n = int(np.prod(shape))
+                dim = 3 if cls == "Vector3d" else 4
+                rows = sep_rows(dim, n, 2 + k % 2, integer=True)
+                if cls == "Rotation":  # no zero quaternions (they cannot be normalised)
+                    rows = [r if any(r) else [1.0, 0.0, 0.0, 0.0] for r in rows]
+                rep = {"cls": cls, "dtype": dt, "data": np.array(rows).reshape(shape + (dim,)).tolist()}
+                if cls == "Rotation":
+                    rep["antipodal"] = k % 2 == 0
+                    rep["improper"] = np.array([R.random() < 0.3 for _ in range(n)]).reshape(shape).tolist()
+                go("dtype", rep, f"{cls}/{dt}")
+                k += 1
+    # 5. Miller built from indices
+    FMT = [("hkl", ["m-3m", "6/mmm", "mmm", "-43m", "3m"]), ("uvw", ["432", "4/mmm", "-1", "-6m2", "mm2"]),
+           ("hkil", ["6/mmm", "-3m", "32", "-6m2"]), ("UVTW", ["6/mmm", "3m", "622", "6"])]
+    k = 0
+    for fmt, names in FMT:
+        for us in (False, True):
+            for ri in (False, True):
+                for j in range(2 * KR):
+                    set_backend(k % 3 != 0)
+                    name = names[k % len(names)]
+                    shape = A_SHAPES[k % len(A_SHAPES)]
+                    n = int(np.prod(shape))
+                    pool = [[R.randint(-2, 2) for _ in range(3)] for _ in range(1 + k % 4)]
+                    c3 = []
+                    for _ in range(n):
+                        t = R.random()
+                        v = [0, 0, 0] if t < 0.1 else list(R.choice(pool))
+                        if 0.1 <= t < 0.3:
+                            R.shuffle(v)  # often a symmetrically equivalent vector
+                        if 0.3 <= t < 0.45:
+                            v = [-x for x in v]
+                        c3.append(v)
+                    if fmt in ("hkil", "UVTW"):
+                        c3 = [[a, b, -(a + b), c] for a, b, c in c3]
+                    rep = {"cls": "Miller", "point_group": name, "format": fmt, "shape": list(shape), "coords": c3,
+                           "use_symmetry": us, "return_index": ri, "dtype": "int64" if k % 2 else "float64"}
+                    go("miller-format", rep, f"{fmt}/sym={us}/idx={ri}")
+                    k += 1
+    set_backend(True)
+    # 6. positional flags
+    for k in range(6 * KR):
+        cls = ["Vector3d", "Quaternion", "Miller", "Rotation", "Orientation", "Misorientation"][k % 6]
+        if cls in ("Vector3d", "Quaternion", "Miller"):
+            dim = 4 if cls == "Quaternion" else 3
+            rep = {"cls": cls, "data": np.array(sep_rows(dim, 6, 2, integer=True)).reshape(2, 3, dim).tolist(),
+                   "point_group": "m-3m"}
+        else:
+            qs, imps = sep_quats(6, 2)
+            rep = {"cls": cls, "q": np.array(qs).reshape(2, 3, 4).tolist(),
+                   "improper": np.array(imps).reshape(2, 3).tolist()}
+        go("positional", rep, cls)
+    # 7. histories
+    k = 0
+    for op in VEC_OPS:
+        for cls in ("Vector3d", "Quaternion", "Miller"):
+            for j in range(KR):
+                dim = 4 if cls == "Quaternion" else 3
+                a, b = [(3, 2), (4, 3), (2, 4)][k % 3]
+                rep = {"cls": cls, "op": op, "point_group": ["m-3m", "6/mmm", "-1"][k % 3],
+                       "data": np.array(sep_rows(dim, a * b, 1 + k % 3)).reshape(a, b, dim).tolist()}
+                go("history", rep, f"{cls}/{op}")
+                k += 1
+    k = 0
+    for op in ROT_OPS:
+        for cls in ("Rotation", "Orientation", "Misorientation"):
+            for j in range(KR):
+                set_backend(k % 3 != 0)
+                a, b = [(3, 2), (4, 3), (2, 4)][k % 3]
+                qs, imps = sep_quats(a * b, 1 + k % 3)
+                rep = {"cls": cls, "op": op, "antipodal": k % 2 == 0,
+                       "q": np.array(qs).reshape(a, b, 4).tolist(), "improper": np.array(imps).reshape(a, b).tolist()}
+                go("history", rep, f"{cls}/{op}")
+                k += 1
+    set_backend(True)
+    # 8. large collections, >= 4 axes, size-1 axes in every position
+    B_SHAPES = [(600,), (20, 30), (4, 5, 6, 5), (3, 1, 4), (1, 5, 1), (2, 1, 1, 3), (2, 3, 2, 2), (1, 1, 1), (5, 1),
+                (2, 2, 2, 2, 2)]
+    B_CLS = [("Vector3d", None), ("Rotation", True), ("Quaternion", None), ("Orientation", False), ("Miller", None),
+             ("Rotation", False), ("Misorientation", True)]
+    for k in range(len(B_SHAPES) * len(B_CLS) if KR > 1 else 30):
+        set_backend(k % 3 != 0)
+        shape = B_SHAPES[k % len(B_SHAPES)]
+        cls, ap = B_CLS[k % len(B_CLS)]
+        n = int(np.prod(shape))
+        npool = [1, 2, 5, 40][k % 4] if n > 30 else [1, 2, 3][k % 3]
+        rep = {"cls": cls, "shape": list(shape)}
+        if ap is None:
+            rep["data"] = sep_rows(4 if cls == "Quaternion" else 3, n, npool)
+            rep["point_group"] = "m-3m"
+        else:
+            rep["q"], rep["improper"] = sep_quats(n, npool)
+            rep["antipodal"] = ap
+        go("brute", rep, f"{cls}/ndim={len(shape)}/n={'>30' if n > 30 else '<=30'}")
+    set_backend(True)
+    # 9. groups built through unique(): products of named groups of different classes in both orders
+    GP = [("432", "-42m"), ("-42m", "432"), ("622", "3m"), ("3m", "622"), ("m-3m", "6/mmm"), ("6/mmm", "m-3m"),
+          ("mm2", "-4"), ("-4", "mm2"), ("1", "-1"), ("-1", "1"), ("222", "m11"), ("m11", "222"), ("23", "-6"),
+          ("-6", "23"), ("-43m", "-43m"), ("321", "312"), ("312", "321"), ("m-3", "m-3"), ("4/mmm", "422"),
+          ("-3m", "-6m2")]
+    names = list(GROUPS)
+    for k in range(8 * KR):
+        GP.append((names[R.randrange(len(names))], names[R.randrange(len(names))]))
+    for k, (a, b) in enumerate(GP):
+        set_backend(k % 3 != 0)
+        go("group", {"cls": "Symmetry", "kind": "product", "g1": a, "g2": b}, "product")
+    for k, a in enumerate(names):
+        set_backend(k % 3 != 0)
+        go("group", {"cls": "Symmetry", "kind": "from_generators:whole", "g1": a}, "from_generators")
+        go("group", {"cls": "Symmetry", "kind": "from_generators:split", "g1": a}, "from_generators")
+    set_backend(True)
+    # 10. Miller(use_symmetry=True) for point groups outside the six above: improper groups WITHOUT the inversion
+    #     (v and -v are not equivalent; the improper flags of the operations matter), trigonal and proper groups.
+    #     Oracle only (record=False): the Coq model was validated bit for bit on the six groups above; on these
+    #     groups an image that lands exactly on a 10-decimal tie (point group 32, [1.3333333333, 0, -0.4] rotated
+    #     by 120 degrees -> -0.66666666665) depends on the last bit of the product, where model and numpy differ
+    for k in range(len(XPHASES) * (1 if KR == 1 else 3)):
+        set_backend(k % 3 != 0)
+        name = list(XPHASES)[k % len(XPHASES)]
+        ph = phase_by_name(name)
+        n = [3, 4, 6, 8][k % 4]
+        xyz, kinds = gen_miller(n, ph)
+        shape = SHAPES[n][k % len(SHAPES[n])]
+        tag = f"audit/miller-sym/{name}/ndim={len(shape)}"
+        st(tag)
+        run_miller_sym(name, ph, xyz, shape, tag, record=False)
+    set_backend(True)
 
     emit({"cases": cases, "fails": fails, "strata": strata, "witness": witness})
